@@ -39,7 +39,8 @@ SEARCH_RULE = ('DKW band eps_n = sqrt(ln(2/delta)/(2n)), delta = 1e-9.  Required
                'Statistical part only in the thorough tier / when an obligation is broken; the quick tier runs the '
                'deterministic oracles (exact estimators, param maps, KDE density = kernel estimate - also after the caller '
                'overwrites the training array in place -, supports, 4 moderately U-shaped Beta samples (n = 5000, every dataset '
-               'within 2 eps\'_n), sample_size x bw_method x weights combinations (stored dataset bit-identical to the resample of the requested estimate '
+               'within 2 eps\'_n), large-offset data (|loc| up to 1.2e8, spread <= 1), FORM of the stored parameters (Python numbers / plain lists, JSON), '
+               'several models alive at once, sample_size x bw_method x weights combinations (stored dataset bit-identical to the resample of the requested estimate '
                'under the same numpy global seed), object states (fresh / re-fitted / from_dict / clone give bit-identical parameters), configured candidate instances '
                'reached through Univariate / GaussianMultivariate keep their options, numeric forms of user bounds, '
                'TruncatedGaussian on large-scale (1e3) asymmetrically truncated data (n = 5000, every dataset within '
@@ -935,6 +936,171 @@ def beta_unit_width_oracle(ctx, seed, deep):
     return checked
 
 
+def large_offset_oracle(ctx, seed, deep):
+    """data with a huge location relative to its spread (|loc| up to 1.2e8, scale <= 1).  Calibrated on the clean tree
+    (n = 1000, sqrt(n)*sup|F_fit - F_true|): Gaussian 0.6, Uniform 0.1, KDE 0.8, TruncatedGaussian 0.6 (user and data-derived
+    bounds) up to |loc| = 1.2e8 - these are the every-dataset families: required sup|F_fit - F_true| <= 2 eps'_n and
+    sup|F_fit - ECDF| <= 3 eps'_n.  Beta / Gamma (80 % families; clean 1.2 / 0.5 up to 1.2e8): only required to return finite
+    parameters with scale > 0.  NOT in domain on the unchanged tree (reported, not exercised): TruncatedGaussian and Gamma stop
+    converging from |loc| ~ 1.5e8, StudentT from |loc| ~ 1e6 (sqrt(n)*sup ~ 20), LogLaplace (recorded finding)."""
+    from copulas.univariate import BetaUnivariate, GammaUnivariate, GaussianKDE, GaussianUnivariate, TruncatedGaussian, UniformUnivariate
+    r = random.Random('C04-design/large-offset')
+    checked = 0
+    n = 1000
+    locs = [9e7, -1.1e8, 1.2e8, 1e6] if deep else [9e7, -1.1e8, 1.2e8]
+    members = []
+    for i, loc in enumerate(locs):
+        sc = [1.0, 0.3, 0.7, 1.0][i % 4]
+        a, b = [(-2.0, 2.0), (-0.5, 2.5), (-2.0, 0.3), (0.0, 3.0)][i % 4]
+        members.append(('truncated', TruncatedGaussian, stats.truncnorm(a, b, loc=loc, scale=sc), {'minimum': loc + a * sc, 'maximum': loc + b * sc}))
+        members.append(('truncated', TruncatedGaussian, stats.truncnorm(a, b, loc=loc, scale=sc), {}))
+        members.append(('gaussian', GaussianUnivariate, stats.norm(loc, sc), {}))
+        if i < 2 or deep:
+            members.append(('uniform', UniformUnivariate, stats.uniform(loc, sc), {}))
+            members.append(('kde', GaussianKDE, stats.norm(loc, sc), {}))
+            members.append(('beta', BetaUnivariate, stats.beta(2.0, 3.0, loc=loc, scale=sc), {}))
+            members.append(('gamma', GammaUnivariate, stats.gamma(3.0, loc=loc, scale=sc), {}))
+    e = band_d(n)
+    for idx, (fam, cls, dist, kw) in enumerate(members):
+        rs = vc.np_rng(seed, 'C04', 'large-offset', idx)
+        X = np.asarray(dist.rvs(n, random_state=rs), dtype=float)
+        checked += 1
+        ctx.count(f'dkw.large-offset.{fam}')
+        inp = {'family': fam, 'generating': {'dist': dist.dist.name, 'args': list(dist.args), 'kwds': dist.kwds}, 'ctor': kw, 'n': n,
+               'seed': seed, 'data_path': ['large-offset', idx]}
+        try:
+            m = cls(**kw)
+            m.fit(X)
+            if fam in ('beta', 'gamma'):
+                vals = [float(v) for v in m._params.values()]
+                ok = all(math.isfinite(v) for v in vals) and float(m._params['scale']) > 0
+                obs = vc.jsonable(m._params)
+                req = 'finite parameters with scale > 0'
+            else:
+                d_true, d_emp = sup_dists(m.cumulative_distribution, dist, X, 300, rs)
+                ok = d_true <= 2 * e and d_emp <= 3 * e
+                obs = {'d_true': d_true, 'd_emp': d_emp, 'params': vc.jsonable(m._params) if fam != 'kde' else None}
+                req = f'sup|F_fit - F_true| <= {2 * e:.4f} and sup|F_fit - ECDF| <= {3 * e:.4f}'
+        except Exception as ex:  # noqa
+            ok, obs, req = False, f'{type(ex).__name__}: {ex}'[:200], 'fit succeeds'
+        if not ok:
+            ctx.fail_input(f'{cls.__name__}.fit', inp, obs, f'data with location {dist.kwds.get("loc", dist.args[0] if dist.args else 0)!r} '
+                           f'and spread <= 1: {req}', f'{cls.__name__}.fit:dkw:large-offset')
+    return checked
+
+
+def _plain_leaves(v, path, bad):
+    """every leaf a Python int/float (np.float64 is a float subclass; np.int64 / ndarray are not), containers plain lists"""
+    if isinstance(v, list):
+        for i, x in enumerate(v):
+            _plain_leaves(x, f'{path}[{i}]', bad)
+            if len(bad) > 3:
+                return
+    elif isinstance(v, bool) or not isinstance(v, (int, float)):
+        bad.append(f'{path}: {type(v).__module__}.{type(v).__name__}')
+
+
+def stored_form_oracle(ctx, seed, deep):
+    """FORM of the stored / reported parameters: every value of _params and to_dict() is a Python number (or a plain, possibly
+    nested, list of them), json.dumps(to_dict()) works, and for GaussianKDE the density is the kernel estimate of the REPORTED
+    dataset (np.ravel(to_dict()['dataset'])) with the configured options and survives a JSON round trip (default options).
+    Data: float, integer-valued float and (where the unchanged tree already complies: all but UniformUnivariate, non-constant)
+    int64 arrays; KDE also x sample_size x weights.  Reported, not exercised: constant int64 columns (every family stores
+    np.unique(X)[0] as np.int64) and UniformUnivariate on int64 data (np.int64 loc/scale) are not JSON-serialisable on the
+    unchanged tree."""
+    import json
+    from copulas.univariate import GaussianKDE
+    r = vc.rng_for(seed, 'C04', 'forms')
+    rs = vc.np_rng(seed, 'C04', 'forms')
+    checked = 0
+    n = 60
+    Xi = rs.randint(0, 25, size=n)
+    datasets = {'float': rs.normal(3.0, 2.0, size=n) + 6.0, 'integer-valued float': Xi.astype(float), 'int64': Xi.astype(np.int64)}
+    cases = []
+    for clsname in STATE_FAMILIES:
+        for dname in datasets:
+            if dname == 'int64' and clsname == 'UniformUnivariate':
+                continue
+            cases.append((clsname, dname, {}))
+    w = rs.uniform(0.1, 1.0, size=n)
+    for dname in datasets:
+        cases.append(('GaussianKDE', dname, {'sample_size': r.choice([9, 2 * n])}))
+        cases.append(('GaussianKDE', dname, {'weights': w, 'bw_method': 'silverman'}))
+        cases.append(('GaussianKDE', dname, {'sample_size': n, 'weights': w}))
+    for clsname, dname, kw in cases:
+        X = datasets[dname]
+        checked += 1
+        ctx.count(f'form.{clsname}.{dname}')
+        inp = {'class': clsname, 'data': dname, 'X': X.tolist(), 'ctor': {k: (v.tolist() if isinstance(v, np.ndarray) else v) for k, v in kw.items()}}
+        bad = []
+        try:
+            m = _cls(clsname)(**kw)
+            m.fit(X.copy())
+            d = m.to_dict()
+            for k, v in m._params.items():
+                _plain_leaves(v, f'_params[{k!r}]', bad)
+            for k, v in d.items():
+                if k != 'type':
+                    _plain_leaves(v, f'to_dict()[{k!r}]', bad)
+            try:
+                js = json.dumps(d)
+            except Exception as ex:  # noqa
+                js = None
+                bad.append(f'json.dumps(to_dict()): {type(ex).__name__}: {ex}'[:120])
+            if clsname == 'GaussianKDE' and not bad:
+                ds = np.ravel(np.asarray(d['dataset'], dtype=float))
+                if 'sample_size' in kw and len(ds) != kw['sample_size']:
+                    bad.append(f'reported dataset has {len(ds)} values, sample_size = {kw["sample_size"]}')
+                obs = _kde_matches(m.probability_density, ds, kw.get('bw_method'), kw.get('weights'), 'direct')
+                if obs:
+                    bad.append(f'density is not the kernel estimate of the reported dataset: {obs["density"][:3]} vs '
+                               f'{obs["kernel_estimate_with_configured_options"][:3]}')
+                if not kw and js is not None:
+                    m2 = GaussianKDE.from_dict(json.loads(js))
+                    pts = ds[:5] + 0.1
+                    if not np.array_equal(np.asarray(m2.probability_density(pts)), np.asarray(m.probability_density(pts))):
+                        bad.append('density changes over a JSON round trip of to_dict()')
+        except Exception as ex:  # noqa
+            bad.append(f'{type(ex).__name__}: {ex}'[:160])
+        if bad:
+            ctx.fail_input(f'{clsname}.fit', inp, bad[:5],
+                           'stored / reported parameters are Python numbers or plain lists of them, json.dumps(to_dict()) works, and the '
+                           'KDE density is the kernel estimate of the reported dataset', f'{clsname}.fit:stored-params-not-plain')
+    return checked
+
+
+def models_alive_oracle(ctx, seed, deep):
+    """several models alive at once: fit one fresh model per dataset FIRST, then check every model against its OWN data
+    (parameters and cdf unchanged since its own fit, and equal to a model fitted alone)."""
+    rs = vc.np_rng(seed, 'C04', 'alive')
+    checked = 0
+    for clsname in STATE_FAMILIES:
+        cls = _cls(clsname)
+        datas = [rs.normal(0.0, 1.0, size=70) * sc + loc for loc, sc in ((2.0, 1.0), (40.0, 6.0), (-15.0, 0.4))]
+        if clsname in ('BetaUnivariate', 'GammaUnivariate', 'LogLaplace'):
+            datas = [stats.gamma.rvs(3.0, loc=loc, scale=sc, size=70, random_state=rs) for loc, sc in ((0.0, 1.0), (5.0, 4.0), (1.0, 0.3))]
+        alone = []
+        for D in datas:
+            alone.append(_fit_params(cls(), np.asarray(D, dtype=float)))
+        models = [cls() for _ in datas]
+        for m, D in zip(models, datas):          # all fits first ...
+            try:
+                m.fit(np.asarray(D, dtype=float))
+            except Exception:  # noqa
+                pass
+        for i, (m, D) in enumerate(zip(models, datas)):        # ... then every model against its own data
+            checked += 1
+            ctx.count(f'alive.{clsname}')
+            now = ('ok', {k: np.asarray(v, dtype=float).ravel().tolist() for k, v in m._params.items()}) \
+                if getattr(m, 'fitted', False) else ('err', 'not fitted')
+            if alone[i][0] == 'ok' and now != alone[i]:
+                ctx.fail_input(f'{clsname}.fit', {'class': clsname, 'datasets': [np.asarray(x).tolist() for x in datas], 'model_index': i},
+                               {'params_now': now, 'params_of_a_model_fitted_alone_on_its_data': alone[i]},
+                               f'model {i} still holds the estimate of ITS data after {len(datas) - 1 - i} later fits of other instances',
+                               f'{clsname}.fit:models-share-state')
+    return checked
+
+
 def _bw_of(spec):
     """replayable description of a bw_method -> the object"""
     if spec is None or isinstance(spec, str) and not spec.startswith('callable:'):
@@ -1366,6 +1532,9 @@ def search(ctx, deep, seed=None):
     checked += c_
     checked += trunc_bound_forms_oracle(ctx, seed, deep)
     checked += kde_resample_oracle(ctx, seed, deep)
+    checked += large_offset_oracle(ctx, seed, deep)
+    checked += stored_form_oracle(ctx, seed, deep)
+    checked += models_alive_oracle(ctx, seed, deep)
     checked += wrapper_route_oracle(ctx, seed, deep)
     checked += state_oracle(ctx, seed, deep)
     # --- bounded scipy-MLE family: support of the fitted Beta (deterministic)
